@@ -44,7 +44,7 @@ def shared_once(ctx):
                   "an already resolved target is not accepted with Ok(()): a valid diamond would be refused (or resolved twice)")
 
 
-@rule("C09.RECURSION-BOUNDED", ["C09"], """every recursive call of the resolver is dominated by a `?`-checked removal of the target from the finite configuration, or by an ancestor
+@rule("C09.RECURSION-BOUNDED", ["C09", "C19"], """every recursive call of the resolver is dominated by a `?`-checked removal of the target from the finite configuration, or by an ancestor
       test whose true edge returns Err with the ancestor chain extended by the current id: a cyclic project cannot recurse forever""", "K1", floor=1)
 def recursion_bounded(ctx):
     b = resolver(ctx)
@@ -94,9 +94,19 @@ def recursion_bounded(ctx):
             if not (anc_params and id_only and ok_arg):
                 chain_ok = False
         ancestor = errs_ok and chain_ok and all(rb in Gf for rb in recs)
+        # the ancestor test compares whole target identities (project and name), not one component of them
+        for e in et:
+            for d in bool_atom_desc(b, e.label[2]):
+                if d[0] == "call" and anc(d):
+                    ct = b.term(d[3])
+                    nl = operand_local(ct["args"][1]) if len(ct["args"]) > 1 else None
+                    whole = nl is not None and re.search(r"TargetId$", b.locals[nl]["ty"].replace("&", "").strip()) is not None
+                    ctx.check(whole, f"{short(b.name)}/ancestor-identity", [site(b, e.src)],
+                              "the cycle test compares only a component of the target identity (e.g. the bare name): same-named targets of different projects are reported as a cycle",
+                              props=["C09", "C19"])
     ctx.check(bool(consuming) or ancestor, f"{short(b.name)}/bounded", [site(b, x) for x in consuming] or [b.loc()],
               "neither a consuming removal nor an ancestor test bounds the recursion: a cyclic project makes zinoma recurse without end",
-              detail=("consuming-removal " if consuming else "") + ("ancestor-test" if ancestor else ""))
+              detail=("consuming-removal " if consuming else "") + ("ancestor-test" if ancestor else ""), props=["C09"])
 
 
 @rule("C09.ALL-DEPS-VISITED", ["C09"], """the resolver recurses over the target's full dependency list (declared dependencies plus `X.output` producers), leaving the loop only when the
@@ -680,7 +690,7 @@ def _rv_atoms(b, rv):
     return out
 
 
-@rule("C19.CALLERS", ["C19", "C09"], """the `current project` given to the name parser is the root project's name in main, and the declaring target's own project inside project files""", "K5", floor=3)
+@rule("C19.CALLERS", ["C19", "C09", "C13"], """the `current project` given to the name parser is the root project's name in main, and the declaring target's own project inside project files""", "K5", floor=3)
 def callers(ctx):
     r = ctx.r
     f = ctx.f
